@@ -535,7 +535,7 @@ def gen_dtc(rng, n, nrec_max=6):
             cnt = nrec
         elif g == 'extdtc':
             st = rng.randrange(256)
-            recno = rng.choice([1, 2, 0x10, 0xEF, 0xFF])
+            recno = rng.choice([1, 2, 0x10, 0xEF, 0xF0, 0xF0, 0xFE, 0xFF])      # 0xF0..0xFF ask for groups of records: any record number may come back
             ext = rng.choice([0, 1, 2, 5])
             mode = rng.choice(['cfg', 'arg', 'dict'])
             p['dtc'], p['xrec'] = dtcid, recno
